@@ -336,12 +336,29 @@ func genReq(g *rng.R) req {
 	case 2, 3:
 		n, l := validName()
 		b, _ := json.Marshal(map[string]string{"level": n})
+		if g.P(1, 6) {
+			// insignificant whitespace makes the body large; it is still the same JSON document
+			b = append([]byte(strings.Repeat(" ", rng.Pick(g, []int{1000, 1100, 5000, 70000}))), b...)
+		}
 		return req{Method: "PUT", CT: jsonCT(), Body: string(b), Intent: "valid", Want: l, Desc: "PUT json valid " + n}
 	case 4:
 		n, l := validName()
 		return req{Method: "PUT", CT: form, Body: "level=" + url.QueryEscape(n), Intent: "valid", Want: l, Desc: "PUT form body valid " + n}
 	case 5:
 		n, l := validName()
+		if g.P(1, 3) {
+			// a large form body (other fields before or after the level): still a PUT naming a valid level
+			pad := "pad=" + strings.Repeat("x", rng.Pick(g, []int{900, 1020, 1100, 5000, 70000}))
+			body := pad + "&level=" + url.QueryEscape(n)
+			if g.Bool() {
+				body = "level=" + url.QueryEscape(n) + "&" + pad
+			}
+			q := ""
+			if g.Bool() {
+				q = "level=" + url.QueryEscape(n) // the same level again in the query
+			}
+			return req{Method: "PUT", CT: form, Body: body, Query: q, Intent: "valid", Want: l, Desc: fmt.Sprintf("PUT form body of %d bytes valid %s", len(body), n)}
+		}
 		return req{Method: "PUT", CT: form, Query: "level=" + url.QueryEscape(n), Intent: "valid", Want: l, Desc: "PUT form query valid " + n}
 	case 6:
 		n := badName()
